@@ -170,7 +170,7 @@ func (c *c12Consumer) call(sols *prolog.Solutions, op byte) (res string, ok bool
 
 func (c *c12Consumer) stop() { close(c.reqs) }
 
-func minInt(a, b int) int {
+func minInt_c12(a, b int) int {
 	if a < b {
 		return a
 	}
@@ -244,7 +244,7 @@ func runC12Seq(payload string) string {
 		nt = 1
 	}
 	return fmt.Sprintf("%s | work=%d g=%d ### nt=%d query=%s len=%d nexts=%d calls_after_end=%d",
-		strings.Join(res, " "), work, g, nt, strings.ReplaceAll(spec, " ", ""), len(ops), nNext, minInt(afterEnd, 4))
+		strings.Join(res, " "), work, g, nt, strings.ReplaceAll(spec, " ", ""), len(ops), nNext, minInt_c12(afterEnd, 4))
 }
 
 var c12Ops = []string{"N", "S", "E", "C"}
@@ -381,7 +381,7 @@ func runC12Inter(payload string) string {
 		nt = 1
 	}
 	return fmt.Sprintf("%s | work=%d,%d g=%d ### nt=%d len=%d switches=%d calls_after_end=%d",
-		strings.Join(res, " "), wa, wb, g, nt, len(ops), minInt(switches, 6), minInt(afterEnd, 4))
+		strings.Join(res, " "), wa, wb, g, nt, len(ops), minInt_c12(switches, 6), minInt_c12(afterEnd, 4))
 }
 
 func genC12Inter(r *rand.Rand, n int, tier string) []string {
